@@ -3,16 +3,23 @@ import InfluxQL.Lemmas.SetTimeRange
 C18 — SetTimeRange replaces earlier time bounds, over any sequence of windows.
 
 Model: `Model/SetTimeRange.lean` (`rewriteNoTime` = `rewriteWithoutTimeDimensions` before
-printing, `setTimeRange` = print → `ParseExpr` → `CReduce(·, nil)`, `setTimeRangeSeq`),
-`Model/SetTimeRangeSpec.lean` (`nonTimeHolds`, the class `strClass`, the hypotheses `RT`,
-`WindowOK`). The model follows /repo after the fixes 51161c4 (a bound is recognised by a reference
-to `time` on either side, in any letter case, typed or not) and 86fc254 (calls are kept). The meaning of a condition at a point is C10's `holds`; by `C10.split_sound` this is
-also what `ConditionExpr` observes on the conditions concerned.
+printing, `rewrittenText` = the string it returns — in parentheses when the rewritten condition is
+an `OR` —, `setTimeRange` = print → `ParseExpr` → `CReduce(·, nil)`, `setTimeRangeSeq`),
+`Model/SetTimeRangeSpec.lean` (`nonTimeHolds`, the class `strClass`, `groupForAnd`, the hypotheses
+`RT`, `WindowOK`). The model follows /repo after the fixes 51161c4 (a bound is recognised by a
+reference to `time` on either side, in any letter case, typed or not), 86fc254 (calls are kept) and
+the fix of C18-top-level-or-captures-the-window (an `OR` at the top is parenthesised before
+` AND <window>` is appended). The meaning of a condition at a point is C10's `holds`; by
+`C10.split_sound` this is also what `ConditionExpr` observes on the conditions concerned.
 
 Hypotheses, all explicit in the statements:
-* `RT` / `RTSeq` — the text `SetTimeRange` prints parses to the tree it was printed from, extended
-  by the two bounds (the print → parse round trip of C02/C03 on this fragment; false for an
-  unparenthesised top-level `OR`, see `top_level_or_regroups`);
+* `RT` / `RTSeq` — the text `SetTimeRange` prints parses to the tree it is the print of
+  (`expectedTree`: the grouped rewritten condition conjoined with the two bounds;
+  `RT_iff_print_parse`): the plain print → parse round trip of C02/C03 on this fragment. Nothing is assumed about the top operator
+  of the condition any more: the theorems cover a top-level `OR` like every other condition of the
+  class (`setTimeRange_top_level_or`, `top_level_or_keeps_window`); for a concrete condition and
+  window sequence the hypothesis is decided by running the parser model in the kernel
+  (`RT_of_rtCheck`, `RTSeq_of_rtSeqCheck`);
 * `WindowOK` — the printed window instants read back exactly;
 * `isTimeRef tbl timeVar` — the lower-casing table shipped for non-ASCII runes does not touch the
   letters of `time` (true for every table the harness produces; `by decide` for `[]`).
@@ -21,12 +28,42 @@ namespace InfluxQL.C18
 open InfluxQL Gen
 open InfluxQL.CondTime
 
+/-- `OR` is the only operator that binds looser than `AND` (generated precedence table): it is the
+only top node that the appended ` AND <window>` could regroup, and the one `rewrittenText`
+parenthesises. -/
+theorem gen_only_or_binds_looser_than_and :
+    ∀ t ∈ Token.all, t.isOperator = true → (t.precedence < Token.AND.precedence ↔ t = .OR) := by
+  decide +kernel
+
+/-- What stands left of the appended `AND` never has an `OR` at the top, and is the rewritten
+condition itself unless that is an `OR` (then it is that condition in parentheses); the text
+handed to the parser is the print of this tree followed by ` AND <bounds>`. -/
+theorem grouped_never_or (tbl : List (Char × Char)) (c : Expr) (w : Window) :
+    topIsOr (groupForAnd (rewriteNoTime tbl c)) = false ∧
+    (topIsOr (rewriteNoTime tbl c) = false → groupForAnd (rewriteNoTime tbl c) = rewriteNoTime tbl c) ∧
+    (topIsOr (rewriteNoTime tbl c) = true → groupForAnd (rewriteNoTime tbl c) = .paren (rewriteNoTime tbl c)) ∧
+    setTimeRangeText tbl (some c) w =
+      (groupForAnd (rewriteNoTime tbl c)).print ++ [' ', 'A', 'N', 'D', ' '] ++ boundsText w :=
+  ⟨topIsOr_groupForAnd _, groupForAnd_of_not_or _, fun h => by simp [groupForAnd, h], setTimeRangeText_eq tbl c w⟩
+
+/-- **The hypothesis `RT` is the plain print → parse round trip**: the text `SetTimeRange` builds with
+`fmt.Sprintf` is, character for character, `String()` of `expectedTree` (the grouped rewritten
+condition conjoined with the two bounds), for every condition and window; so `RT` says
+`ParseExpr (T.String()) = T` for that one tree and nothing else. -/
+theorem RT_iff_print_parse (tbl : List (Char × Char)) (c : Expr) (w : Window) :
+    setTimeRangeText tbl (some c) w = (expectedTree tbl c w).print ∧
+    (RT tbl c w ↔ parseExprText (expectedTree tbl c w).print [] tbl = .ok (expectedTree tbl c w)) := by
+  refine ⟨setTimeRangeText_is_print tbl c w, ?_⟩
+  unfold RT
+  rw [setTimeRangeText_is_print]
+
 /-- **One call.** For a condition of the class (time bounds with `time` — any letter case, any
 type annotation — on either side of any operator, other predicates comparing a tag or field with a
-reference, literal or call), `SetTimeRange(start, end)` succeeds and the new condition holds at a
-point exactly when `start ≤ t < end` and the non-time part of the old condition holds; the new
-condition is again in the class, has the same non-time part, and has at most eight nodes more than
-the old one. -/
+reference, literal or call; `AND`, parentheses, and `OR` between time-free conditions **also at the
+top**), `SetTimeRange(start, end)` succeeds and the new condition holds at a point exactly when
+`start ≤ t < end` and the non-time part of the old condition holds; the new condition is again in
+the class, has the same non-time part, and has at most eight nodes more than the old one — nine
+when the parentheses around a top-level `OR` are added (`parenCost`). -/
 theorem setTimeRange_step (ctx : CCtx) (fa : FloatArith) (c : Expr) (w : Window)
     (hcls : strClass ctx.lowerTbl c = true) (hT : isTimeRef ctx.lowerTbl timeVar = true)
     (hrt : RT ctx.lowerTbl c w) :
@@ -34,17 +71,31 @@ theorem setTimeRange_step (ctx : CCtx) (fa : FloatArith) (c : Expr) (w : Window)
       (WindowOK ctx w → ∀ L t, holds ctx L t c' = (w.contains t && nonTimeHolds ctx.lowerTbl L c)) ∧
       strClass ctx.lowerTbl c' = true ∧
       (∀ L, nonTimeHolds ctx.lowerTbl L c' = nonTimeHolds ctx.lowerTbl L c) ∧
-      c'.size ≤ c.size + 8 := by
+      c'.size ≤ c.size + 8 + parenCost ctx.lowerTbl c := by
   refine ⟨stepSpec fa ctx.lowerTbl c w, setTimeRange_of_RT ctx.lowerTbl fa c w hcls hrt, rfl, ?_⟩
   obtain ⟨hN, hev, hsz⟩ := ntPart_spec ctx.lowerTbl fa c hcls
   obtain ⟨b1, b2, b3, b4, _⟩ := build_spec ctx fa (ntPart fa ctx.lowerTbl c) w hN hT
   rw [stepSpec_eq]
   refine ⟨?_, b1, ?_, ?_⟩
   · intro hw L t
-    rw [show creduce (nilRCtx fa) (rewriteNoTime ctx.lowerTbl c) = ntPart fa ctx.lowerTbl c from rfl, b3 hw L t, hev L]
+    rw [show creduce (nilRCtx fa) (groupForAnd (rewriteNoTime ctx.lowerTbl c)) = ntPart fa ctx.lowerTbl c from rfl, b3 hw L t, hev L]
   · intro L
-    rw [show creduce (nilRCtx fa) (rewriteNoTime ctx.lowerTbl c) = ntPart fa ctx.lowerTbl c from rfl, b2 L, hev L]
+    rw [show creduce (nilRCtx fa) (groupForAnd (rewriteNoTime ctx.lowerTbl c)) = ntPart fa ctx.lowerTbl c from rfl, b2 L, hev L]
   · exact Nat.le_trans b4 (by omega)
+
+/-- **A top-level `OR`** (the case of the former finding C18-top-level-or-captures-the-window): for
+`l OR r` between time-free conditions of the class, the new condition holds at a point exactly
+when `start ≤ t < end` **and** one of the disjuncts holds — the window guards every disjunct. -/
+theorem setTimeRange_top_level_or (ctx : CCtx) (fa : FloatArith) (l r : Expr) (w : Window)
+    (hcls : strClass ctx.lowerTbl (.binary .OR l r) = true) (hT : isTimeRef ctx.lowerTbl timeVar = true)
+    (hrt : RT ctx.lowerTbl (.binary .OR l r) w) (hw : WindowOK ctx w) :
+    ∃ c', setTimeRange fa ctx.lowerTbl (some (.binary .OR l r)) w = .ok c' ∧
+      ∀ L t, holds ctx L t c' =
+        (w.contains t && (nonTimeHolds ctx.lowerTbl L l || nonTimeHolds ctx.lowerTbl L r)) := by
+  obtain ⟨c', h1, _, h3, _⟩ := setTimeRange_step ctx fa _ w hcls hT hrt
+  refine ⟨c', h1, fun L t => ?_⟩
+  rw [h3 hw L t]
+  simp [nonTimeHolds]
 
 /-- **One call, as the query engine sees it**: `ConditionExpr` of the new condition succeeds; its
 residual has the value of the old non-time part, and its range is exactly `[start, end - 1 ns]`
@@ -90,7 +141,10 @@ theorem SeqOK.forall_mem (P : Expr → Window → Prop) :
 def core (fa : FloatArith) (tbl : List (Char × Char)) (c : Expr) : Nat := (ntPart fa tbl c).size
 
 theorem core_le_size (tbl : List (Char × Char)) (fa : FloatArith) (c : Expr) (h : strClass tbl c = true) :
-    core fa tbl c ≤ c.size := (ntPart_spec tbl fa c h).2.2
+    core fa tbl c ≤ c.size + parenCost tbl c := (ntPart_spec tbl fa c h).2.2
+
+theorem parenCost_le_one (tbl : List (Char × Char)) (c : Expr) : parenCost tbl c ≤ 1 := by
+  unfold parenCost; split <;> omega
 
 theorem core_step (ctx : CCtx) (fa : FloatArith) (c : Expr) (w : Window)
     (hcls : strClass ctx.lowerTbl c = true) (hT : isTimeRef ctx.lowerTbl timeVar = true) :
@@ -101,14 +155,16 @@ theorem core_step (ctx : CCtx) (fa : FloatArith) (c : Expr) (w : Window)
   rw [stepSpec_eq]
   refine ⟨?_, b4⟩
   unfold core
-  rw [show ntPart fa ctx.lowerTbl (build fa (creduce (nilRCtx fa) (rewriteNoTime ctx.lowerTbl c)) w)
-      = creduce (nilRCtx fa) (rewriteNoTime ctx.lowerTbl (build fa (ntPart fa ctx.lowerTbl c) w)) from rfl, b5]
+  rw [show ntPart fa ctx.lowerTbl (build fa (creduce (nilRCtx fa) (groupForAnd (rewriteNoTime ctx.lowerTbl c))) w)
+      = creduce (nilRCtx fa) (groupForAnd (rewriteNoTime ctx.lowerTbl (build fa (ntPart fa ctx.lowerTbl c) w))) from rfl, b5]
   exact (reduce_resTF ctx.lowerTbl (nilRCtx fa) _ hN).2
 
 /-- **Any sequence of windows** (as a continuous query makes them): every call succeeds; after
 call `k` the condition holds exactly on window `k` and the non-time part of the *original*
-condition — no earlier window and no earlier bound is left — and its size stays within the
-original size plus eight nodes, however many calls were made. By induction on the window list. -/
+condition — no earlier window and no earlier bound is left — and its size stays within eight nodes
+of `core c`, the size of the reduced non-time part (itself at most the original size, plus one for
+the parentheses around a top-level `OR`), however many calls were made. By induction on the window
+list. -/
 theorem setTimeRange_seq (ctx : CCtx) (fa : FloatArith) (hT : isTimeRef ctx.lowerTbl timeVar = true) :
     ∀ (ws : List Window) (c : Expr), strClass ctx.lowerTbl c = true → RTSeq fa ctx.lowerTbl c ws →
       ∃ cs : List Expr, setTimeRangeSeq fa ctx.lowerTbl (some c) ws = cs.map Except.ok ∧
@@ -131,17 +187,20 @@ theorem setTimeRange_seq (ctx : CCtx) (fa : FloatArith) (hT : isTimeRef ctx.lowe
       rw [h1 hw L t, hnt L]
 
 /-- **The condition does not grow**: after any number of calls its size is at most the size of the
-original condition plus `K = 8` nodes (the two bounds and the two `AND`s). -/
+original condition plus `K = 9` nodes (the two bounds, the two `AND`s, and the parentheses around a
+top-level `OR`; `8` when the condition has no `OR` at the top). -/
 theorem size_bounded (ctx : CCtx) (fa : FloatArith) (hT : isTimeRef ctx.lowerTbl timeVar = true)
     (ws : List Window) (c : Expr) (hcls : strClass ctx.lowerTbl c = true) (hrt : RTSeq fa ctx.lowerTbl c ws) :
     ∃ cs : List Expr, setTimeRangeSeq fa ctx.lowerTbl (some c) ws = cs.map Except.ok ∧
-      ∀ c' ∈ cs, c'.size ≤ c.size + 8 := by
+      ∀ c' ∈ cs, c'.size ≤ c.size + 8 + parenCost ctx.lowerTbl c ∧ c'.size ≤ c.size + 9 := by
   obtain ⟨cs, h1, h2⟩ := setTimeRange_seq ctx fa hT ws c hcls hrt
   refine ⟨cs, h1, ?_⟩
   have hc := core_le_size ctx.lowerTbl fa c hcls
+  have hp := parenCost_le_one ctx.lowerTbl c
   intro c' hm
   obtain ⟨w, hw⟩ := SeqOK.forall_mem _ cs ws h2 c' hm
-  exact Nat.le_trans hw.2 (by omega)
+  have := hw.2
+  constructor <;> omega
 
 /-- **Only the last window applies**: after a non-empty sequence of calls the final condition
 holds exactly on the last window and the original non-time part. -/
@@ -171,7 +230,7 @@ theorem only_last_window_applies (ctx : CCtx) (fa : FloatArith) (hT : isTimeRef 
   subst e
   exact ⟨cs', cl, h1, p.1 hw⟩
 
-/-! ### Kernel-checked examples: the repaired behaviours, and the defect that remains -/
+/-! ### Kernel-checked examples of the repaired behaviours -/
 
 def ctx0 : CCtx := { r := { valuer := some ⟨946684800000000000, none⟩, fa := fun _ _ _ => ⟨false, 0, 0⟩ } }
 def fa0 : FloatArith := fun _ _ _ => ⟨false, 0, 0⟩
@@ -225,20 +284,59 @@ theorem call_in_predicate_kept :
     (stepSpec fa0 ctx0.lowerTbl c2 w1).print = (stepSpec fa0 ctx0.lowerTbl c w1).print := by
   decide +kernel
 
-/-- `host = 'a' OR host = 'b'`: the rewritten condition is printed without parentheses in front of
-` AND time >= … AND time < …`. The parser's insertion step (`insertOp`, the loop of `ParseExpr`)
-hangs the `AND`s below the right operand of the `OR`, so the window only guards `host = 'b'`:
-the resulting tree holds at a point outside the window. (`RT` fails for this condition; that the
-implementation produces exactly this tree is shown by the correspondence stream. Still open.) -/
-theorem top_level_or_regroups :
-    let ge := geBound w1.start
-    let lt := ltBound w1.stop
-    let parsed := insertOp (insertOp (.binary .OR hostEqA hostEqB) .AND ge) .AND lt
-    parsed.print = (Expr.binary .OR hostEqA (.binary .AND (.binary .AND hostEqB ge) lt)).print ∧
-    parsed.print = ("host = 'a' OR host = 'b' AND time >= '1970-01-01T00:16:40Z' AND " ++
+/-- `host = 'a' OR host = 'b'` (regrouped to `host = 'a' OR (host = 'b' AND <window>)` before the
+fix): in the class; the text handed to the parser is `(host = 'a' OR host = 'b') AND time >= … AND
+time < …`; the parser model, run in the kernel on that text, returns the tree it was printed from
+(`RT` holds); the new condition is `AND (AND (paren (OR …)) ge) lt`; at a point outside the window
+it does not hold although both `host` predicates do, inside the window it holds. -/
+theorem top_level_or_keeps_window :
+    let c := Expr.binary .OR hostEqA hostEqB
+    strClass ctx0.lowerTbl c = true ∧
+    setTimeRangeText ctx0.lowerTbl (some c) w1 = ("(host = 'a' OR host = 'b') AND " ++
+      "time >= '1970-01-01T00:16:40Z' AND time < '1970-01-01T00:17:40Z'").toList ∧
+    RT ctx0.lowerTbl c w1 ∧
+    setTimeRange fa0 ctx0.lowerTbl (some c) w1 =
+      .ok (.binary .AND (.binary .AND (.paren c) (geBound w1.start)) (ltBound w1.stop)) ∧
+    (w1.contains 5 = false ∧
+      holds ctx0 allTrue 5 (.binary .AND (.binary .AND (.paren c) (geBound w1.start)) (ltBound w1.stop)) = false) ∧
+    (w1.contains 1000000000001 = true ∧
+      holds ctx0 allTrue 1000000000001 (.binary .AND (.binary .AND (.paren c) (geBound w1.start)) (ltBound w1.stop)) = true) := by
+  have hrt : RT ctx0.lowerTbl (Expr.binary .OR hostEqA hostEqB) w1 := RT_of_rtCheck _ _ _ (by decide +kernel)
+  refine ⟨by decide, by decide +kernel, hrt, ?_, by decide +kernel, by decide +kernel⟩
+  rw [setTimeRange_of_RT ctx0.lowerTbl fa0 _ w1 (by decide) hrt]
+  exact congrArg Except.ok (Expr.same_eq _ _ (by decide +kernel))
+
+/-! ### A defect that remains (outside the class of the theorems)
+
+Found with the thorough tier while carrying the top-level-OR fix through; it does not involve `OR`
+and is present before and after that fix. -/
+
+/-- `7 - 0s != b`: a predicate with constant arithmetic (outside `strClass`, whose predicates have
+references, literals and calls as operands). -/
+def foldsToTime : Expr := .binary .NEQ (.binary .SUB (.integer 7) (.duration 0)) (.varRef ['b'] .Unknown)
+
+/-- **Open finding C18-folded-time-literal-comes-back-as-string.** The first call is fine (`RT`
+holds), and its `Reduce` folds `7 - 0s` to the time literal `1970-01-01T00:00:00.000000007Z`.
+A time literal has no spelling of its own: it prints as a quoted string. So on the second call the
+print → parse step fails (`rtCheck … = false`): the parser returns a *string* literal, and the
+predicate `<time> != b` has become `'1970-01-01T00:00:00.000000007Z' != b` — a different predicate
+(on the implementation: for b = "a" the first is false, the second true, so points are selected
+after the second call that were not selected after the first). The model reproduces the
+implementation here (correspondence stream); the same happens with `'2000-01-01' - 0`. -/
+theorem folded_time_literal_comes_back_as_string :
+    let b := Expr.varRef ['b'] .Unknown
+    let c1 := stepSpec fa0 ctx0.lowerTbl foldsToTime w1
+    strClass ctx0.lowerTbl foldsToTime = false ∧
+    rtCheck ctx0.lowerTbl foldsToTime w1 = true ∧
+    Expr.same c1 (.binary .AND (.binary .AND (.binary .NEQ (.time 7) b) (geBound w1.start)) (ltBound w1.stop)) = true ∧
+    c1.print = ("'1970-01-01T00:00:00.000000007Z' != b AND time >= '1970-01-01T00:16:40Z' AND " ++
       "time < '1970-01-01T00:17:40Z'").toList ∧
-    w1.contains 5 = false ∧
-    holds ctx0 allTrue 5 (creduce (nilRCtx fa0) parsed) = true := by
+    rtCheck ctx0.lowerTbl c1 ⟨1060000000000, 1120000000000⟩ = false ∧
+    (match setTimeRange fa0 ctx0.lowerTbl (some c1) ⟨1060000000000, 1120000000000⟩ with
+      | .ok c2 => Expr.same c2 (.binary .AND (.binary .AND
+          (.binary .NEQ (.string "1970-01-01T00:00:00.000000007Z".toList) b)
+          (geBound 1060000000000)) (ltBound 1120000000000))
+      | .error _ => false) = true := by
   decide +kernel
 
 /-! ### Non-vacuity -/
@@ -261,5 +359,51 @@ example : holds ctx0 allTrue 1000000000000 (stepSpec fa0 ctx0.lowerTbl sample w1
     holds ctx0 allTrue 1059999999999 (stepSpec fa0 ctx0.lowerTbl sample w1) = true ∧
     holds ctx0 allTrue 1060000000000 (stepSpec fa0 ctx0.lowerTbl sample w1) = false ∧
     holds ctx0 allTrue 999999999999 (stepSpec fa0 ctx0.lowerTbl sample w1) = false := by decide +kernel
+
+/-- `host = 'a' OR host = 'b' OR r = 'x'`: an `OR` at the top, through two successive windows. -/
+def sampleOr : Expr :=
+  .binary .OR (.binary .OR hostEqA hostEqB) (.binary .EQ (.varRef ['r'] .Unknown) (.string ['x']))
+def w2 : Window := ⟨1060000000000, 1120000000000⟩
+/-- `host = 'a'` only. -/
+def onlyHostA : Expr → Bool := fun e => Expr.same e hostEqA
+
+example : strClass ctx0.lowerTbl sampleOr = true := by decide
+example : topIsOr (rewriteNoTime ctx0.lowerTbl sampleOr) = true ∧ parenCost ctx0.lowerTbl sampleOr = 1 := by decide
+/-- The print → parse hypothesis along both calls, decided by running the parser model. -/
+theorem sampleOr_rtSeq : RTSeq fa0 ctx0.lowerTbl sampleOr [w1, w2] :=
+  RTSeq_of_rtSeqCheck fa0 ctx0.lowerTbl _ _ (by decide +kernel)
+theorem window2_ok : WindowOK ctx0 w2 := by
+  refine ⟨?_, ?_, ?_, ?_⟩ <;> decide
+/-- `only_last_window_applies` instantiated: after the two calls the condition holds exactly on the
+second window and `host = 'a' OR host = 'b' OR r = 'x'`. -/
+example : ∃ cs cl, setTimeRangeSeq fa0 ctx0.lowerTbl (some sampleOr) ([w1] ++ [w2]) = (cs ++ [cl]).map Except.ok ∧
+    ∀ L t, holds ctx0 L t cl = (w2.contains t && nonTimeHolds ctx0.lowerTbl L sampleOr) :=
+  only_last_window_applies ctx0 fa0 table_ok [w1] w2 sampleOr (by decide) sampleOr_rtSeq window2_ok
+example : (stepSpec fa0 ctx0.lowerTbl sampleOr w1).print =
+    ("(host = 'a' OR host = 'b' OR r = 'x') AND time >= '1970-01-01T00:16:40Z' AND " ++
+      "time < '1970-01-01T00:17:40Z'").toList := by decide +kernel
+/-- No second pair of parentheses on the next call, and the first window is gone. -/
+example : (stepSpec fa0 ctx0.lowerTbl (stepSpec fa0 ctx0.lowerTbl sampleOr w1) w2).print =
+    ("(host = 'a' OR host = 'b' OR r = 'x') AND time >= '1970-01-01T00:17:40Z' AND " ++
+      "time < '1970-01-01T00:18:40Z'").toList := by decide +kernel
+example : (stepSpec fa0 ctx0.lowerTbl sampleOr w1).size = sampleOr.size + 9 ∧
+    (stepSpec fa0 ctx0.lowerTbl (stepSpec fa0 ctx0.lowerTbl sampleOr w1) w2).size = sampleOr.size + 9 := by
+  decide +kernel
+/-- A point with `host = 'a'` (first disjunct only): selected inside the second window, not outside
+— in particular not inside the first window any more. -/
+example :
+    let c2 := stepSpec fa0 ctx0.lowerTbl (stepSpec fa0 ctx0.lowerTbl sampleOr w1) w2
+    nonTimeHolds ctx0.lowerTbl onlyHostA sampleOr = true ∧
+    holds ctx0 onlyHostA 1060000000000 c2 = true ∧ holds ctx0 onlyHostA 1119999999999 c2 = true ∧
+    holds ctx0 onlyHostA 1059999999999 c2 = false ∧ holds ctx0 onlyHostA 1120000000000 c2 = false ∧
+    holds ctx0 onlyHostA 1000000000000 c2 = false ∧ holds ctx0 onlyHostA 5 c2 = false := by
+  decide +kernel
+/-- An `OR` that folds away: `host = 'a' OR false` keeps `(host = 'a')`, `true OR host = 'a'` leaves
+the window alone. -/
+example : (stepSpec fa0 ctx0.lowerTbl (.binary .OR hostEqA (.boolean false)) w1).print =
+      "(host = 'a') AND time >= '1970-01-01T00:16:40Z' AND time < '1970-01-01T00:17:40Z'".toList ∧
+    (stepSpec fa0 ctx0.lowerTbl (.binary .OR (.boolean true) hostEqA) w1).print =
+      "time >= '1970-01-01T00:16:40Z' AND time < '1970-01-01T00:17:40Z'".toList := by
+  decide +kernel
 
 end InfluxQL.C18
